@@ -74,9 +74,10 @@ func (gs GenesisState) ValidateAssociations() error {
 				"invalid operator address for operator %s", association.Operator,
 			)
 		}
-		// check staker address
+		// check staker address (as for the delegations and undelegations below, not limited
+		// to 20-byte addresses: client chains may have longer ones)
 		if _, _, err := assetstypes.ValidateID(
-			association.StakerID, true, true,
+			association.StakerID, true, false,
 		); err != nil {
 			return errorsmod.Wrapf(
 				ErrInvalidGenesisData, "invalid staker ID %s: %s", association.StakerID, err,
